@@ -457,8 +457,18 @@ fn compile_vote_delegation_certificate(
     x: &tir::AdHocDirective,
     network: Network,
 ) -> Result<primitives::Certificate, Error> {
-    let stake = coercion::expr_into_stake_credential(&x.data["stake"], network)?;
-    let drep = coercion::expr_into_bytes(&x.data["drep"])?;
+    let stake = x
+        .data
+        .get("stake")
+        .ok_or(Error::MissingExpression("vote delegation stake".to_string()))?;
+
+    let drep = x
+        .data
+        .get("drep")
+        .ok_or(Error::MissingExpression("vote delegation drep".to_string()))?;
+
+    let stake = coercion::expr_into_stake_credential(stake, network)?;
+    let drep = coercion::expr_into_bytes(drep)?;
     let drep = primitives::DRep::Key(coercion::bytes_into_hash::<28>(drep.as_slice())?);
 
     Ok(primitives::Certificate::VoteDeleg(stake, drep))
